@@ -58,6 +58,9 @@ def explore(ck, view_index, pid):
     docs = []
     for _ in range(500 if ck.quick else 20000):
         d = g.document()
+        for nd in docgen.walk(d):      # mj-raw is also allowed among the links of a navbar (well-formedness only: the content check is C04's)
+            if nd["tag"] == "mj-navbar" and ck.rng.random() < 0.3:
+                nd["children"].insert(ck.rng.choice([0, len(nd["children"])]), g.leaf("raw"))
         docs.append((docgen.to_mjml(d), docgen.tags(d)))
     for n, s in common.fixture_docs():
         if n not in ("mj-raw", "mj-raw-conditional-comment"):   # author HTML of these two fixtures is itself unbalanced (as in the reference output)
